@@ -9,7 +9,7 @@ from vlib import VERIF
 ASSUMPTIONS = [
     "sequential histories only (one API call at a time, loader and listener threads awaited); concurrent interleavings are out of scope of this tie",
     "identity BuildHasher: shard = key % shards; HashMap iteration order, order of the coalesced read batch and random victims are oracles read from the implementation (policy-call log / clock-rewind probe) and re-checked by comparing every policy call",
-    "time is the virtual clock of the cfg(excsn_fibre_verif) hook; timer-wheel tick duration fixed to 1 s so that the f64 rounding in TimerWheel::schedule is exact",
+    "time is the virtual clock of the cfg(excsn_fibre_verif) hook; timer-wheel tick duration 1 s or 2 s so that the f64 division and rounding in TimerWheel::schedule are exact (the model rounds exactly, ties away from zero)",
     "u64 overflow of cost sums other than current_cost (modelled as wrapping) is not modelled",
     "per-shard HashMaps are one association list keyed by key with shard = key % n (power-of-two shard counts)",
 ]
